@@ -349,7 +349,7 @@ def Ty.frag : Ty → Bool
   | .ident _ [] => true
   | .cycle _ => true
   | .resource _ => true
-  | .tuple _ fs false => Field.fragList fs
+  | .tuple _ fs _ => Field.fragList fs
   | .func i o => i.frag && o.frag
   | .union ts => Ty.fragList ts
   | .inter ts => Ty.fragList ts
@@ -477,36 +477,39 @@ theorem printAtom_head {t : Ty} (hf : t.frag = true) (hw : t.wf = true) :
   | func i o => exact ⟨'(', _, by simp [printAtom, atomWrap]; rfl, rfl⟩
   | union ts => exact ⟨'(', _, by simp [printAtom, atomWrap, printTy]; rfl, rfl⟩
   | tuple name fs p =>
-    cases p with
-    | true => simp [Ty.frag] at hf
-    | false =>
-      have hns : fs.any Field.isSpread = false := by
-        simp only [Ty.frag] at hf
-        clear hw
-        induction fs with
-        | nil => rfl
-        | cons f fs ih =>
-          simp only [Field.fragList, Bool.and_eq_true] at hf
-          cases f with
-          | field nm ty => simp [Field.isSpread, ih hf.2]
-          | spread a b => simp [Field.frag] at hf
-      cases name with
-      | none =>
+    have hns : fs.any Field.isSpread = false := by
+      simp only [Ty.frag] at hf
+      clear hw
+      induction fs with
+      | nil => rfl
+      | cons f fs ih =>
+        simp only [Field.fragList, Bool.and_eq_true] at hf
+        cases f with
+        | field nm ty => simp [Field.isSpread, ih hf.2]
+        | spread a b => simp [Field.frag] at hf
+    cases name with
+    | none =>
+      cases p with
+      | false =>
         cases fs with
         | nil => exact ⟨'[', [']'], rfl, rfl⟩
         | cons f fs => exact ⟨'[', _, by simp [printAtom, atomWrap, printTy]; rfl, rfl⟩
-      | some n =>
-        simp only [Ty.wf, Bool.and_eq_true, Bool.or_eq_true, hns] at hw
-        have hn : isTupleNameStr n = true := by
-          rcases hw.2 with h | h
-          · exact h
-          · simp at h
-        obtain ⟨c, r, rfl, hc⟩ := isTupleNameStr_head hn
-        have hl : startsLower (c :: r) = false := by simp [startsLower, (upper_facts hc).1]
+      | true =>
         cases fs with
-        | nil => exact ⟨c, r, by simp [printAtom, atomWrap, printTy, hl], by simp [atomHead, hc]⟩
-        | cons f fs =>
-          exact ⟨c, _, by simp [printAtom, atomWrap, printTy, hl]; rfl, by simp [atomHead, hc]⟩
+        | nil => exact ⟨'(', [')'], rfl, rfl⟩
+        | cons f fs => exact ⟨'(', _, by simp [printAtom, atomWrap, printTy]; rfl, rfl⟩
+    | some n =>
+      have hn : isTupleNameStr n = true := by
+        cases p <;> simp only [Ty.wf, Bool.and_eq_true, Bool.or_eq_true, hns] at hw <;>
+          (rcases hw.2 with h | h
+           · exact h
+           · simp at h)
+      obtain ⟨c, r, rfl, hc⟩ := isTupleNameStr_head hn
+      have hl : startsLower (c :: r) = false := by simp [startsLower, (upper_facts hc).1]
+      cases p <;> cases fs with
+      | nil => exact ⟨c, _, by simp [printAtom, atomWrap, printTy, hl]; rfl, by simp [atomHead, hc]⟩
+      | cons f fs =>
+        exact ⟨c, _, by simp [printAtom, atomWrap, printTy, hl]; rfl, by simp [atomHead, hc]⟩
   | inter ts => exact ⟨'(', _, by simp [printAtom, atomWrap]; rfl, rfl⟩
   | proc a r => simp [Ty.frag] at hf
   | modty a b c => simp [Ty.frag] at hf
@@ -753,26 +756,27 @@ theorem commaWsc_fails_close {c : Char} (rest : Str) (hc : c = ']' ∨ c = ')') 
   · rcases hc with rfl | rfl <;> simp [headAll, isMultispace]
   · rcases hc with rfl | rfl <;> decide
 
-theorem stopTd_fields_tail (fs : List Field) (rest : Str) :
-    stopTd ((fs.map ([',', ' '] ++ printField ·)).flatten ++ ']' :: rest) = true := by
+theorem stopTd_fields_tail_gen {c : Char} (hc : c = ']' ∨ c = ')') (fs : List Field) (rest : Str) :
+    stopTd ((fs.map ([',', ' '] ++ printField ·)).flatten ++ c :: rest) = true := by
   cases fs with
-  | nil => exact stopTd_of_close _ (Or.inr (Or.inl rfl))
+  | nil => exact stopTd_of_close _ (Or.inr hc)
   | cons f fs => exact stopTd_of_close _ (Or.inl rfl)
 
-theorem close_bracket (rest : Str) : seq wsc (pchar ']') (']' :: rest) = .ok () rest := by
-  rw [seq_ok (wsc_of_head (by simp [headAll, isMultispace])), pchar_self]
+theorem close_char {c : Char} (hc : c = ']' ∨ c = ')') (rest : Str) :
+    seq wsc (pchar c) (c :: rest) = .ok () rest := by
+  rw [seq_ok (wsc_of_head (by rcases hc with rfl | rfl <;> simp [headAll, isMultispace])), pchar_self]
 
 section
 variable {k : Knot} {L : Nat} (hk : GoodK k L)
 include hk
 
-theorem fields_tail : ∀ fs : List Field, Field.fragList fs = true → Field.wfList fs = true →
+theorem fields_tail_gen {c : Char} (hc : c = ']' ∨ c = ')') : ∀ fs : List Field, Field.fragList fs = true → Field.wfList fs = true →
     Field.lvList fs ≤ L → ∀ rest : Str,
     sepTail commaWsc (fieldType k)
-      ((fs.map ([',', ' '] ++ printField ·)).flatten ++ ']' :: rest) = .ok fs (']' :: rest) := by
+      ((fs.map ([',', ' '] ++ printField ·)).flatten ++ c :: rest) = .ok fs (c :: rest) := by
   intro fs
   induction fs with
-  | nil => intro _ _ _ rest; exact sepTail_of_fails (commaWsc_fails_close rest (Or.inl rfl))
+  | nil => intro _ _ _ rest; exact sepTail_of_fails (commaWsc_fails_close rest hc)
   | cons f fs ih =>
     intro hf hw hl rest
     simp only [Field.fragList, Field.wfList, Bool.and_eq_true] at hf hw
@@ -782,26 +786,27 @@ theorem fields_tail : ∀ fs : List Field, Field.fragList fs = true → Field.wf
       List.nil_append]
     refine sepTail_cons Sound.commaWsc (fieldType_sound hk.sound)
       (commaWsc_step (printField_head hf.1 hw.1 _)) (by simp; omega) ?_ (ih hf.2 hw.2 hl2 rest)
-    exact field_ok hk hf.1 hw.1 hl1 (stopTd_fields_tail fs rest)
+    exact field_ok hk hf.1 hw.1 hl1 (stopTd_fields_tail_gen hc fs rest)
 
-theorem fieldsIn_bracket {fs : List Field} (hf : Field.fragList fs = true)
+theorem fieldsIn_gen {o c : Char} (hc : c = ']' ∨ c = ')') {fs : List Field} (hf : Field.fragList fs = true)
     (hw : Field.wfList fs = true) (hl : Field.lvList fs ≤ L) (rest : Str) :
-    fieldsIn '[' ']' k ('[' :: (sepBy [',', ' '] (printFieldsL fs) ++ ']' :: rest)) = .ok fs rest := by
-  have hopt : opt (seq wsc (pchar ',')) (']' :: rest) = .ok none (']' :: rest) :=
-    opt_of_fails (Fails.seq_ok (a := ()) (r := ']' :: rest)
-      (wsc_of_head (by simp [headAll, isMultispace])) (pchar_ne (by decide) _))
+    fieldsIn o c k (o :: (sepBy [',', ' '] (printFieldsL fs) ++ c :: rest)) = .ok fs rest := by
+  have hopt : opt (seq wsc (pchar ',')) (c :: rest) = .ok none (c :: rest) :=
+    opt_of_fails (Fails.seq_ok (a := ()) (r := c :: rest)
+      (wsc_of_head (by rcases hc with rfl | rfl <;> simp [headAll, isMultispace]))
+      (pchar_ne (by rcases hc with rfl | rfl <;> decide) _))
   cases fs with
   | nil =>
-    have hft : Fails (fieldType k) (']' :: rest) := by
+    have hft : Fails (fieldType k) (c :: rest) := by
       unfold fieldType
-      exact Fails.alt (Fails.seq (ptag_fails_of_head rfl (by simp [headAll])))
-        (Fails.alt (Fails.bind (identifier_fails_of_head (by simp [headAll, isLower])))
-          (Fails.pmap (hk.close ']' rest (Or.inl rfl))))
+      exact Fails.alt (Fails.seq (ptag_fails_of_head rfl (by rcases hc with rfl | rfl <;> simp [headAll])))
+        (Fails.alt (Fails.bind (identifier_fails_of_head (by rcases hc with rfl | rfl <;> simp [headAll, isLower])))
+          (Fails.pmap (hk.close c rest hc)))
     unfold fieldsIn delimited
     simp only [printFieldsL, sepBy, List.nil_append]
-    rw [seq_ok (a := ()) (r := ']' :: rest)
-      (by rw [seq_ok (pchar_self _ _)]; exact wsc_of_head (by simp [headAll, isMultispace]))]
-    refine before_ok (b := ()) ?_ (close_bracket rest)
+    rw [seq_ok (a := ()) (r := c :: rest)
+      (by rw [seq_ok (pchar_self _ _)]; exact wsc_of_head (by rcases hc with rfl | rfl <;> simp [headAll, isMultispace]))]
+    refine before_ok (b := ()) ?_ (close_char hc rest)
     unfold fieldTypeList
     exact before_ok (sepList0_of_fails hft) hopt
   | cons f fs =>
@@ -810,13 +815,30 @@ theorem fieldsIn_bracket {fs : List Field} (hf : Field.fragList fs = true)
     have hl2 : Field.lvList fs ≤ L := Nat.le_trans (Nat.le_max_right _ _) hl
     rw [printFieldsL_eq, List.map_cons, sepBy_cons, List.map_map, List.append_assoc]
     unfold fieldsIn delimited
-    rw [seq_ok (a := ()) (r := printField f ++ ((fs.map (([',', ' '] ++ ·) ∘ printField)).flatten ++ ']' :: rest))
+    rw [seq_ok (a := ()) (r := printField f ++ ((fs.map (([',', ' '] ++ ·) ∘ printField)).flatten ++ c :: rest))
       (by rw [seq_ok (pchar_self _ _)]; exact wsc_of_head (printField_head hf.1 hw.1 _))]
-    refine before_ok (b := ()) ?_ (close_bracket rest)
+    refine before_ok (b := ()) ?_ (close_char hc rest)
     unfold fieldTypeList
-    exact before_ok (sepList0_cons (field_ok hk hf.1 hw.1 hl1 (stopTd_fields_tail fs rest))
-      (fields_tail hk fs hf.2 hw.2 hl2 rest)) hopt
+    exact before_ok (sepList0_cons (field_ok hk hf.1 hw.1 hl1 (stopTd_fields_tail_gen hc fs rest))
+      (fields_tail_gen hk hc fs hf.2 hw.2 hl2 rest)) hopt
 
+end
+
+theorem stopTd_fields_tail (fs : List Field) (rest : Str) :
+    stopTd ((fs.map ([',', ' '] ++ printField ·)).flatten ++ ']' :: rest) = true :=
+  stopTd_fields_tail_gen (Or.inl rfl) fs rest
+
+section
+variable {k : Knot} {L : Nat} (hk : GoodK k L)
+include hk
+theorem fieldsIn_bracket {fs : List Field} (hf : Field.fragList fs = true)
+    (hw : Field.wfList fs = true) (hl : Field.lvList fs ≤ L) (rest : Str) :
+    fieldsIn '[' ']' k ('[' :: (sepBy [',', ' '] (printFieldsL fs) ++ ']' :: rest)) = .ok fs rest :=
+  fieldsIn_gen hk (Or.inl rfl) hf hw hl rest
+theorem fieldsIn_paren {fs : List Field} (hf : Field.fragList fs = true)
+    (hw : Field.wfList fs = true) (hl : Field.lvList fs ≤ L) (rest : Str) :
+    fieldsIn '(' ')' k ('(' :: (sepBy [',', ' '] (printFieldsL fs) ++ ')' :: rest)) = .ok fs rest :=
+  fieldsIn_gen hk (Or.inr rfl) hf hw hl rest
 end
 
 theorem typeName_fails_head {i : Str} (h : headAll (· ≠ '\'') i = true) : Fails typeName i :=
@@ -946,6 +968,69 @@ theorem tuple_ok {name : Option Str} {fs : List Field} (hf : Field.fragList fs =
             (fieldsIn_fails_head k _ _ (hhead '(' _ (Ne.symm hup.2.2.2.1)))))
       exact ⟨base_of_tuple k ht, fio_of_tuple k hpt (hhead '(' _ (Ne.symm hup.2.2.2.1)) ht⟩
 
+theorem partial_ok {name : Option Str} {fs : List Field} (hf : Field.fragList fs = true)
+    (hw : (Ty.tuple name fs true).wf = true) (hl : Field.lvList fs ≤ L) {rest : Str}
+    (hr : stopB rest = true) :
+    baseTypeWith k (printTy (.tuple name fs true) ++ rest) = .ok (.tuple name fs true) rest ∧
+    functionIoType k (printTy (.tuple name fs true) ++ rest) = .ok (.tuple name fs true) rest := by
+  have _ := hr
+  have hns := frag_no_spread hf
+  simp only [Ty.wf, Bool.and_eq_true] at hw
+  cases name with
+  | none =>
+    have hp : printTy (.tuple none fs true) = '(' :: (sepBy [',', ' '] (printFieldsL fs) ++ [')']) := by
+      cases fs <;> simp [printTy, sepBy, printFieldsL]
+    rw [hp]
+    simp only [List.cons_append, List.append_assoc, List.nil_append]
+    have hpt : partialType k ('(' :: (sepBy [',', ' '] (printFieldsL fs) ++ ')' :: rest)) =
+        .ok (.tuple none fs true) rest := by
+      unfold partialType
+      rw [alt_of_fails (Fails.bind (tupleName_fails_of_head (by simp [headAll, isUpper])))]
+      exact verify_ok (pmap_ok (fieldsIn_paren hk hf hw.1 hl rest)) (by simpa using hw.2)
+    refine ⟨?_, ?_⟩
+    · unfold baseTypeWith
+      rw [alt_of_fails (tupleType_fails_head k (by simp [headAll, isUpper])), alt_of_ok hpt]
+    · unfold functionIoType
+      rw [alt_of_ok hpt]
+  | some n =>
+    have hn : isTupleNameStr n = true := by simpa [hns] using hw.2
+    obtain ⟨c, r, hcr, hc⟩ := isTupleNameStr_head hn
+    have hup := upper_facts hc
+    have hlow : startsLower n = false := by subst hcr; simp [startsLower, hup.1]
+    have hhead : ∀ (d : Char) (tl : Str), d ≠ c → headAll (· ≠ d) (n ++ tl) = true := by
+      intro d tl hd; subst hcr; simp only [List.cons_append, headAll, decide_eq_true_eq]
+      exact fun e => hd e.symm
+    have hp : printTy (.tuple (some n) fs true) =
+        n ++ '(' :: (sepBy [',', ' '] (printFieldsL fs) ++ [')']) := by
+      cases fs <;> simp [printTy, hlow, sepBy, printFieldsL]
+    rw [hp]
+    simp only [List.cons_append, List.append_assoc, List.nil_append]
+    have htn : tupleName (n ++ '(' :: (sepBy [',', ' '] (printFieldsL fs) ++ ')' :: rest)) =
+        .ok n ('(' :: (sepBy [',', ' '] (printFieldsL fs) ++ ')' :: rest)) :=
+      tupleName_append hn (by intro d tl e; cases e; decide)
+    have hpt : partialType k (n ++ '(' :: (sepBy [',', ' '] (printFieldsL fs) ++ ')' :: rest)) =
+        .ok (.tuple (some n) fs true) rest := by
+      unfold partialType
+      rw [alt_of_ok]
+      rw [bind_ok htn, pmap_ok (fieldsIn_paren hk hf hw.1 hl rest)]
+    have hpeek : Fails (peekNot (seq ws0 (pchar '(')))
+        ('(' :: (sepBy [',', ' '] (printFieldsL fs) ++ ')' :: rest)) := by
+      have : seq ws0 (pchar '(') ('(' :: (sepBy [',', ' '] (printFieldsL fs) ++ ')' :: rest)) =
+          .ok () (sepBy [',', ' '] (printFieldsL fs) ++ ')' :: rest) := by
+        rw [seq_ok (ws0_of_head (by simp [headAll, isMultispace])), pchar_self]
+      exact ⟨'(' :: (sepBy [',', ' '] (printFieldsL fs) ++ ')' :: rest), .not, by simp [peekNot, this]⟩
+    have htt : Fails (tupleType k) (n ++ '(' :: (sepBy [',', ' '] (printFieldsL fs) ++ ')' :: rest)) := by
+      unfold tupleType
+      exact Fails.alt (Fails.bind_ok htn (Fails.pmap (fieldsIn_fails_head k _ _ (by simp [headAll]))))
+        (Fails.alt (Fails.verify (Fails.bind (typeName_fails_head (hhead '\'' _ (Ne.symm hup.2.1)))))
+        (Fails.alt (Fails.pmap (fieldsIn_fails_head k _ _ (hhead '[' _ (Ne.symm hup.2.2.1))))
+          (Fails.bind_ok htn (Fails.pmap hpeek))))
+    refine ⟨?_, ?_⟩
+    · unfold baseTypeWith
+      rw [alt_of_fails htt, alt_of_ok hpt]
+    · unfold functionIoType
+      rw [alt_of_ok hpt]
+
 /-- (A) and (C): the printed atom is read back by `base_type` and by `function_input_type` one
     level above the knot -/
 theorem atom_ok {t : Ty} (hf : t.frag = true) (hw : t.wf = true) (hl : t.lvA ≤ L + 1) {rest : Str}
@@ -997,7 +1082,10 @@ theorem atom_ok {t : Ty} (hf : t.frag = true) (hw : t.wf = true) (hl : t.lvA ≤
     exact ⟨base_resource k hn hr, fio_resource k hn hr⟩
   | tuple name fs p =>
     cases p with
-    | true => simp [Ty.frag] at hf
+    | true =>
+      have : printAtom (.tuple name fs true) = printTy (.tuple name fs true) := rfl
+      rw [this]
+      exact partial_ok hk (by simpa [Ty.frag] using hf) hw (by simp only [Ty.lvA] at hl; omega) hr
     | false =>
       have : printAtom (.tuple name fs false) = printTy (.tuple name fs false) := rfl
       rw [this]
